@@ -193,15 +193,28 @@ def gadget_pi_filters(facts, key='simplify::remove_gadget_pi'):
     return atoms, pair_ok, applied
 
 
-def run(ck):
+def run(ck, parts=None):
     facts = ck.facts
+    parts = set(parts or ('D1', 'D2', 'D3', 'D4'))
     ck.decided('D1 every call of an *_unchecked rule is justified: checked wrappers (C04), sweep macro instances guarded by a matcher that establishes the rule\'s contract with the same arguments and no graph mutation in between, named rule-inside-rule exceptions',
                'D2 the inline matcher of fuse_gadgets establishes the phase-gadget contract at the point where a gadget is recorded (a non-conforming leg must reject, not be skipped); the filter chain of remove_gadget_pi establishes what pi-copy needs',
                'D3 rule bodies conform to the rule schemas (effects on phases, edges, vertices; sqrt2 exponents; phase factors) — see R-EFFECT obligations',
                'D4 edge-insertion discipline: raw add_edge/add_edge_with_type only to fresh vertices or under a not-connected test in basic_rules.rs, simplify.rs, graph.rs')
     ck.not_decided('that the schemas themselves are true ZX identities (trusted base)', 'soundness of composites as a whole (induction over D1-D4 is an argument, not a computation)',
                    'termination', 'panic freedom beyond the existence clause', 'floating-point tolerance for non-Clifford+T phases')
-    # ---- D1
+    if 'D1' in parts:
+        _d1(ck, facts)
+    if 'D2' in parts:
+        _d2(ck, facts)
+    if 'D4' in parts:
+        _d4(ck, facts)
+    if 'D3' in parts:
+        from .. import reffect
+        reffect.check_c01_schemas(ck)
+    _controls(ck)
+
+
+def _d1(ck, facts):
     sites = unchecked_sites(facts)
     n_guarded = 0
     for i, (key, call, rule) in enumerate(sorted(sites, key=lambda s: (s[0], hir.line(s[1])))):
@@ -232,7 +245,9 @@ def run(ck):
               sample={'kind': 'guarded', 'guard': matcher, 'rule': rule})
     ck.floor('R-GUARD', len(sites), 24)
     ck.floor('R-GUARD-sweeps', n_guarded, 7)
-    # ---- D2
+
+
+def _d2(ck, facts):
     ck.fn('simplify::fuse_gadgets')
     ds, cx = fuse_gadgets_point(facts)
     if not ds:
@@ -252,7 +267,9 @@ def run(ck):
     ety_ok = any((True, ('etype', a, b, H)) in atoms for a, b in ((V('leaf'), V('centre')), (V('centre'), V('leaf'))))
     ck.ob('R-MATCH-point', 'simplify::remove_gadget_pi/etype(leaf,centre)=H', ety_ok, ck.site('simplify::remove_gadget_pi'), 'the filter chain does not require the leaf\'s single leg to be a Hadamard edge (pi-copy through a plain Z-Z edge is unsound)')
     ck.ob('R-MATCH-point', 'simplify::remove_gadget_pi/pairs-centre-with-leaf', pair_ok and len(applied) == 1, ck.site('simplify::remove_gadget_pi'), 'the (centre, leaf) pairing or the single pi_copy_unchecked application is no longer recognised')
-    # ---- D4
+
+
+def _d4(ck, facts):
     keys = [k for k, f in facts['fns'].items() if f['file'].endswith(('basic_rules.rs', 'simplify.rs', 'graph.rs'))]
     rs = redge.raw_sites(facts, keys)
     EXC = {
@@ -270,10 +287,9 @@ def run(ck):
         ck.ob('R-EDGE', sid, just is not None, ck.site(key, c), 'raw edge insertion `%s`: %s (use add_edge_smart, or insert only to fresh vertices)' % (hir.pp(c)[:60], detail),
               sample={'call': hir.pp(c)[:60], 'justified_by': just})
     ck.floor('R-EDGE', len(rs), 8)
-    # ---- D3 (schemas) lives in effects module
-    from .. import reffect
-    reffect.check_c01_schemas(ck)
-    # positive controls
+
+
+def _controls(ck):
     fx = fixture()
     fsites = unchecked_sites(fx)
     bad = False
